@@ -190,4 +190,15 @@ theorem detect_type_non_object_rejected (e : BEnv) (Γ : Ctx) (cfg : ParserConfi
     cases data <;> simp [J.isObj] at h <;> simp [J.isArr] at ha <;>
       (unfold decodeAuto; split <;> exact ⟨_, rfl⟩)
 
+/-! ## the hypotheses of the theorems above are satisfiable (concrete non-trivial instances) -/
+
+/-- the hypotheses of `non_object_rejected` / `detect_type_non_object_rejected` hold of scalars,
+null and arrays, and the conclusion is met on the witness universe -/
+example : (J.int 5).isObj = false ∧ J.null.isObj = false ∧ (J.arr [.str ['a']]).isObj = false ∧
+    (J.str ['s']).isArr = false ∧
+    (decode Witness.env Witness.jctx {} 17 Witness.Doc false (.int 5)).toBool = false ∧
+    (decode Witness.env Witness.jctx {} 17 Witness.Doc true (.arr [.null])).toBool = false ∧
+    (decodeAuto Witness.env Witness.jctx {} 16 (.arr [.int 5, Witness.o []])).toBool = false := by
+  decide
+
 end Props.C15
